@@ -145,6 +145,10 @@ class Site(object):
                     parts.append(('<LINK REL="StyleSheet" HREF="%s">' if l.get('upper') else '<link rel="stylesheet" href="%s">') % href)
                 elif l.get('frame'):
                     parts.append('<iframe src="%s"></iframe>' % href)
+                elif l.get('srcset'):
+                    # an image candidate list: white space of any kind in front of the descriptor; the URL may hold commas
+                    parts.append('<img srcset="%s\n\t2x, /nowhere/%s,%s 3x">' % (href, 'w_9', 'h_9.png') if l['srcset'] == 'multi'
+                                 else '<img srcset="%s\t2x">' % href)
                 elif l.get('inline'):
                     parts.append('<img src="%s">' % href)
                 else:
